@@ -343,6 +343,8 @@ pub struct Builder {
     pub stage: Stage,
     /// offsets (in the message) of the OPT records pushed so far
     pub opts: Vec<usize>,
+    /// the first question is the one request_axfr pushed
+    pub axfr_first: bool,
 }
 
 fn fresh() -> MessageBuilder<Tgt> {
@@ -377,7 +379,7 @@ pub fn request(word: u16, id: u16, k: usize) -> Message<Vec<u8>> {
 
 impl Builder {
     pub fn new() -> Self {
-        Builder { stage: Stage::B(fresh()), opts: vec![] }
+        Builder { stage: Stage::B(fresh()), opts: vec![], axfr_first: false }
     }
 
     pub fn stage_no(&self) -> i64 {
@@ -463,6 +465,9 @@ impl Builder {
         if t < 4 {
             self.opts.clear();
         }
+        if t == 0 {
+            self.axfr_first = false;
+        }
     }
 
     /// Applies one operation; returns (result code, what the getters of the
@@ -475,6 +480,7 @@ impl Builder {
                 if matches!(self.stage, Stage::None) {
                     self.stage = Stage::B(fresh());
                     self.opts.clear();
+                    self.axfr_first = false;
                 }
                 (2, vec![])
             }
@@ -560,6 +566,7 @@ impl Builder {
                 }
                 let rcode = Rcode::checked_from_int(rc).unwrap();
                 self.opts.clear();
+                self.axfr_first = false;
                 if k == "start_answer" {
                     match b.start_answer(&req, rcode) {
                         Ok(mut ab) => {
@@ -609,6 +616,7 @@ impl Builder {
                             }
                         };
                         self.stage = Stage::An(ab);
+                        self.axfr_first = true;
                         (if ok { 0 } else { 72 }, vec![drawn as i64])
                     }
                     Err(_) => {
@@ -658,8 +666,12 @@ impl Builder {
             };
             let want = question(i);
             let name: Name<Vec<u8>> = q.qname().to_name();
-            // request_axfr pushes its own single question
-            let axfr = q.qtype() == Rtype::AXFR && qd == 1 && name.as_slice() == b"\x07example\x03com\x00";
+            // request_axfr pushes its own question first
+            let axfr = self.axfr_first
+                && i == 0
+                && q.qtype() == Rtype::AXFR
+                && q.qclass() == Class::IN
+                && name.as_slice() == b"\x07example\x03com\x00";
             if !axfr
                 && (name.as_slice() != want.qname().as_slice()
                     || q.qtype() != want.qtype()
